@@ -258,9 +258,17 @@ func CheckCanaryNodes(pre, post *State, reconcileErr error, ns, name string) (is
 			vals = append(vals, v)
 		}
 		sort.Strings(vals)
+		// spreading is a preference: a value may exceed its share only when no better balanced choice existed, i.e. no
+		// valid node that was left out belongs to a value that is still below its share
+		better := ""
+		for _, n := range pre.Nodes() {
+			if valid[n.Name] && !inL[n.Name] && cnt[val(n)] < limit {
+				better = n.Name
+			}
+		}
 		for _, v := range vals {
-			if cnt[v] > limit && newPick[v] {
-				add("C15/spread: more canary nodes share one value of nodeAntiAffinityKeys than ceil(replicas/#values)", fmt.Sprintf("value %q: %d > %d", v, cnt[v], limit))
+			if cnt[v] > limit && newPick[v] && better != "" {
+				add("C15/spread: more canary nodes share one value of nodeAntiAffinityKeys than ceil(replicas/#values)", fmt.Sprintf("value %q: %d > %d although %s (another value, below its share) was available", v, cnt[v], limit, better))
 			}
 		}
 	}
